@@ -363,10 +363,16 @@ func scenarios(seed int64, thorough bool) []scenario {
 }
 
 func settle(base int) int {
-	deadline := time.Now().Add(3 * time.Second)
+	// A goroutine that was still winding down when base was taken (from the previous run) makes the
+	// difference negative: that is not a leak. The deadline is generous because the machine may be
+	// heavily loaded; it is only waited for when goroutines are really still alive.
+	deadline := time.Now().Add(15 * time.Second)
 	for {
 		n := runtime.NumGoroutine()
-		if n <= base || time.Now().After(deadline) {
+		if n <= base {
+			return 0
+		}
+		if time.Now().After(deadline) {
 			return n - base
 		}
 		time.Sleep(2 * time.Millisecond)
